@@ -2,6 +2,7 @@
 //! history-dependent behaviour (see /verif/DESIGN.md).
 
 mod core;
+mod dynrep;
 mod exec;
 mod lanes;
 mod ledger;
@@ -22,9 +23,13 @@ fn arg(args: &[String], name: &str) -> Option<String> {
 macro_rules! dispatch {
     ($prop:expr, $f:ident, $($a:expr),*) => {
         match $prop {
+            "C01" => $f::<lanes::c01::C01>($($a),*),
             "C11" => $f::<lanes::c11::C11>($($a),*),
             "C12" => $f::<lanes::c12::C12>($($a),*),
+            "C14" => $f::<lanes::c14::C14>($($a),*),
+            "C15" => $f::<lanes::c15::C15>($($a),*),
             "C17" => $f::<lanes::c17::C17>($($a),*),
+            "C20" => $f::<lanes::c20::C20>($($a),*),
             other => {
                 eprintln!("unknown property {other}");
                 std::process::exit(2);
